@@ -156,6 +156,12 @@ def de_pv_copy_facts(source: str) -> list:
                 for t in x.targets:
                     if isinstance(t, ast.Name):
                         assigns.setdefault(t.id, []).append(x.value)
+                    elif isinstance(t, (ast.Tuple, ast.List)):
+                        # `a, b = E1, E2` element-wise; any other unpacking: every name depends on the whole right-hand side
+                        vals = x.value.elts if isinstance(x.value, (ast.Tuple, ast.List)) and len(x.value.elts) == len(t.elts) else None
+                        for i, e in enumerate(t.elts):
+                            if isinstance(e, ast.Name):
+                                assigns.setdefault(e.id, []).append(vals[i] if vals else x.value)
             elif isinstance(x, (ast.AnnAssign, ast.NamedExpr)) and isinstance(x.target, ast.Name) and x.value is not None:
                 assigns.setdefault(x.target.id, []).append(x.value)
 
